@@ -303,3 +303,7 @@ Proof.
   - apply equal_trans with a; [|exact G]. now rewrite equal_sym.
   - now apply equal_trans with b.
 Qed.
+
+Lemma in_out_lists : forall d,
+  (IsIn d = true <-> In (ty d) in_types) /\ (IsOut d = true <-> In (ty d) out_types).
+Proof. intros d. split; [exact (is_in_iff d)|exact (is_out_iff d)]. Qed.
